@@ -94,12 +94,17 @@ def rule_MP2(rep, prog, q):
         ok = ok and good
     rep.require(rid, ok, fn.file, fn.name, "suspend-retain", "_dispatch_lane_suspend must retain_2 exactly when the old state was not suspended", sample={"retains": len(ret)})
     # the in-place barrier completion: CONSUME_2 only if the state after ITS resume is not suspended
-    fn = prog.fn("_dispatch_barrier_trysync_or_async_f_complete")
+    # (found by what it does - it drops a suspend count from dq_state with an atomic subtract and then wakes the queue - so that merging the single-caller
+    # helper _dispatch_barrier_trysync_or_async_f_complete into its caller does not lose it)
+    cands = [f for f in prog.all_functions()
+             if any(i.op == "atomicrmw" and i.d["rmw"] == "sub" and (prog.fields(i) & DQ_STATE) and i.ops[-1][0] == "c" and i.ops[-1][1] == q.SUSPEND_INTERVAL
+                    for i in f.all_insts()) and icalls_slot(prog, f, "dq_wakeup")]
+    fn = cands[0] if cands else prog.fn("_dispatch_barrier_trysync_or_async_f_complete")
     rep.saw(fn)
     sub = [i for i in fn.all_insts() if i.op == "atomicrmw" and i.d["rmw"] == "sub" and (prog.fields(i) & DQ_STATE)]
     wk = icalls_slot(prog, fn, "dq_wakeup")
     if not sub or not wk:
-        rep.unknown(rid, "anchor vanished in _dispatch_barrier_trysync_or_async_f_complete")
+        rep.unknown(rid, "anchor vanished: the in-place barrier completion (atomic subtract of SUSPEND_INTERVAL followed by a wakeup) was not found")
     else:
         res = paths.walk(fn, sub[0], lambda i: i in wk)
         ok = True
